@@ -41,6 +41,10 @@ for q, e in sorted(table.items()):
         calls = calls | ec
         print("        effects: %s%s" % (eff, " OPEN" if eo else ""))
     e["calls"] = sorted(calls)
+    if q.endswith(("std::cmp::Ord>::cmp", "std::cmp::PartialOrd>::partial_cmp")):
+        d = pins.decl_order(ctx, q)
+        if d and len(d) > 1:
+            e["decl_order"] = d
     print("%s %s" % ("OPEN " if is_open else "     ", q))
     for k, v in sorted(rows.items()):
         print("        [%s] -> %s" % (k, " | ".join(sorted(v))))
